@@ -301,8 +301,8 @@ def gen_module(r, stats):
                 text.append("  %d [+1] Bar(%s) %s" % (off, expr, nm))
             else:
                 text.append("  %d [+1] UInt %s" % (off, nm))
-            if k != "let" and r.random() < 0.15 and fds:
-                text.append("    [requires: this == %s]" % "0")
+            if k not in ("let", "typed", "dynsize") and r.random() < 0.15 and fds:
+                text.append("%s[requires: this == 0]" % ("      " if k == "cond" else "    "))
             off += 1
     return {"m.emb": "\n".join(text) + "\n"}, "m.emb", intended
 
@@ -798,15 +798,15 @@ def real_modules(chk, tier, model_ok, stats):
     for tag, files in PINNED:
         main = "a.emb" if "a.emb" in files else "m.emb"
         module_case(chk, files, main, {}, None, "pinned", batch, stats)
-    n = 220 if tier == "quick" else 5000
+    n = 220 if tier == "quick" else 3000
     for i in range(n):
         files, main, intended = gen_module(r, stats)
         module_case(chk, files, main, intended, None, "mixed", batch, stats)
-    for i in range(160 if tier == "quick" else 4000):
+    for i in range(160 if tier == "quick" else 2500):
         files, main, intended = gen_struct(r, r.randint(1, 12), r.randint(0, 2),
                                            r.choice([0, 0, 0, 0.05, 0.2, 0.5]))
         module_case(chk, files, main, intended, None, "struct", batch, stats)
-    for i in range(120 if tier == "quick" else 2500):
+    for i in range(120 if tier == "quick" else 1500):
         files, main, intended, imps = gen_imports(r, stats)
         module_case(chk, files, main, intended, imps, "imports", batch, stats)
     if model_ok:
@@ -908,8 +908,25 @@ def search(chk):
     return len(chk.violations) - before
 
 
+MAX_REPLAYS = 40
+
+
+def cap_violations(chk):
+    """A broken dependency checker fails thousands of cases; keep the first MAX_REPLAYS
+    replay files and count the rest (exit code and VIOLATION lines are unaffected)."""
+    orig = chk.violation
+
+    def violation(kind, detail, key=None, found_input=True):
+        if len(chk.violations) >= MAX_REPLAYS and (key is None or chk.known_finding(key) is None):
+            chk.extra["violations_not_written"] = chk.extra.get("violations_not_written", 0) + 1
+            return None
+        return orig(kind, detail, key=key, found_input=found_input)
+    chk.violation = violation
+
+
 def run(tier):
     chk = common.Check(PROP, tier, exes=["model_c15"])
+    cap_violations(chk)
     chk.cov["rule"] = ("random graphs over ≤14 nodes: raw dict-of-sets graphs for _find_cycles, and reference "
                        "graphs realised as .emb modules (fields, enum values, parameters, imports); "
                        "non-trivial = at least one cycle component / error group, or a structure whose real "
